@@ -17,7 +17,8 @@ BOUNDS = {
     'quick': 'one build_file on a/b/c/t (target depth 3) and a/t (depth 1): target and every ancestor symbolic (absent / '
              'foreign file / foreign directory with or without content) or stale (output / created directory of a '
              'previous build, optionally tampered); modes ok / raise before write / raise after write / no create / '
-             'non-JSON return; mkdir made to fail (ENAMETOOLONG) at each level; 4 spellings of the path',
+             'non-JSON return; mkdir made to fail (ENAMETOOLONG) at each level; 4 spellings of the path; previous output at an '
+             'ancestor position of the new target (a, a/b, a/b/c) with a deeper mkdir failing, optionally followed by a failing root',
     'thorough': 'plus a sibling output in the same new directory (reservation counting) and two prefixes',
 }
 ASSUMPTIONS = ['an over-long path component is modelled by making mkdir of that directory raise OSError(ENAMETOOLONG)']
@@ -36,6 +37,10 @@ def families(tier):
         {'name': 'stale', 'params': {'target': 'a/b/c/t', 'modes': MODES, 'faults': [None, 'a/b/c']}, 'weight': 3},
         {'name': 'fresh', 'params': {'target': 'a/b/c/t', 'modes': ['ok', 'raise_before', 'raise_after', 'no_create'], 'faults': [None],
                                      'nested': True}, 'weight': 2},
+        # the previous build's output sits at an ancestor position of the new target (file -> directory swap), then a deeper
+        # mkdir fails or the function fails
+        {'name': 'stale', 'params': {'target': 'a/b/c/t', 'old_targets': ['a/b', 'a/b/c', 'a'], 'modes': ['ok', 'raise_before', 'no_create'],
+                                     'faults': [None, 'a/b', 'a/b/c'], 'root_raises': True, 'mut_kinds': ['none', 'write']}, 'weight': 3},
         {'name': 'stale', 'params': {'target': 'a/b/c/t', 'modes': ['ok', 'raise_before', 'raise_after'], 'faults': [None, 'a/b/c'],
                                      'sibling': 'prefix', 'root_raises': True, 'mut_paths': ['a/b/cc/z', 'a/b/c']}, 'weight': 2},
     ]
@@ -154,8 +159,12 @@ def harness(eng, fam, P):
         state = RefState()
         if fam == 'stale':
             # a previous build that created the target (and its directories) successfully
-            r0i = Run(w, w.fs, target, 'ok', eng.fresh_int('content0'), 'abs', P.get('sibling'), 'f0')
-            r0r = Run(w, w.ref, target, 'ok', r0i.content, 'abs', P.get('sibling'), 'f0')
+            old = target
+            if P.get('old_targets'):
+                old = P['old_targets'][eng.choose('old_target', len(P['old_targets']))]
+                eng.path_info['old_target'] = old
+            r0i = Run(w, w.fs, old, 'ok', eng.fresh_int('content0'), 'abs', P.get('sibling'), 'f0')
+            r0r = Run(w, w.ref, old, 'ok', r0i.content, 'abs', P.get('sibling'), 'f0')
             try:
                 FileBuilder.build(w.cache, 'n', r0i.root)
                 ok = True
@@ -164,7 +173,7 @@ def harness(eng, fam, P):
             ref_build(w.ref, w.cache, state, r0r.root)
             if ok and r0i.obs.get('outcome') == 'ok':
                 eng.witness('stale-target')
-            mutate(eng, w, 'm', ['none', 'delete', 'write', 'rmtree', 'file2dir'], ['a/b/c/t', 'a/b/c', 'a/b/z', 'a/b'])
+            mutate(eng, w, 'm', P.get('mut_kinds') or ['none', 'delete', 'write', 'rmtree', 'file2dir'], ['a/b/c/t', 'a/b/c', 'a/b/z', 'a/b'])
         nested = [None, 'before', 'after'][eng.choose('nested', 3)] if P.get('nested') else None
         eng.path_info['nested'] = nested
         sib2 = P.get('sibling')
